@@ -114,6 +114,17 @@ def run(rep, tier, rng):
                         add(f"check_power {al} {c.zlist(v)} {c.b(e < 0)} {c.nat(abs(e))} ({c.z(big)}, 1000000000%Z) {obs_t(og)}",
                             {"op": "power-inherited-default", "alg": al, "v": v, "e": e, "obs": c.obs_json(og), "py": f"AbstractAlgebra.binding_power(A, v, {e})"},
                             ("power-default", al, tuple(v), e), nontrivial=any(v))
+                    # the default supports integer exponents only: fractional ones are refused, never truncated
+                    for ef in (0.5, 2.5, -1.5, np.float64(1.25)):
+                        of = c.outcome(lambda: G.binding_power(algs.fl(v), ef))
+                        rep.case(("power-default-fractional", al, tuple(v), float(ef)))
+                        rep.count("power-inherited-default-fractional")
+                        if of[0] != "ValueError":
+                            rep.violation(f"the inherited default binding_power accepted the fractional exponent {ef!r} ({al}): {of[0]}",
+                                          {"case": {"alg": al, "v": v, "e": float(ef)}, "observed": repr(of[1])[:200],
+                                           "python": algs.PRELUDE + "from nengo_spa.algebras.base import AbstractAlgebra\n" + f"A = {algs.alg_py(al)}\n"
+                                           f"try:\n    r = AbstractAlgebra.binding_power(A, np.array({v}, float), {float(ef)})\nexcept ValueError:\n    r = None\n"
+                                           "assert r is None, ('fractional exponent accepted by the integer-only default', r)\n"})
             # ---- unitary vectors: relations on exact outputs --------------
             srcs = []
             for _ in range(2 if quick else 5):
@@ -133,6 +144,10 @@ def run(rep, tier, rng):
                 m0 = np.array([[rng.gauss(0, 1) for _ in range(sdim)] for _ in range(sdim)])
                 m0[0, 0] = 0.0
                 sing.append(m0.flatten())
+                # structured matrices: lower triangular (rows already orthogonal in their right parts), block diagonal, tiny magnitude
+                lt = np.tril(np.array([[rng.choice([-2.0, -1.0, 1.0, 2.0]) for _ in range(sdim)] for _ in range(sdim)]))
+                blk = np.eye(sdim) + np.diag([1.0] * (sdim - 1), -1)
+                sing += [lt.flatten(), blk.flatten(), (m0 + np.eye(sdim) * 3.0).flatten() * 2.0 ** -30]
                 for wsp in sing:
                     with np.errstate(all="ignore"):
                         osp = c.observe(lambda: A.make_unitary(wsp))
